@@ -1,0 +1,51 @@
+//go:build verif
+
+package router
+
+// Verification hooks for property C08, round 2: a cacheCtl with BOTH backends (memory + redis), so that the
+// promotion of a redis hit into the memory cache inside the real cacheCtl.Get can be exercised.
+// Add-only; nothing here re-implements router logic.
+
+import (
+	"time"
+
+	"github.com/IrineSistiana/mosproxy/internal/cache"
+	"github.com/IrineSistiana/mosproxy/internal/dnsmsg"
+	"github.com/IrineSistiana/mosproxy/internal/mlog"
+	"github.com/IrineSistiana/mosproxy/internal/pool"
+)
+
+// VerifC08NewCacheRedis runs the real (*router).initCache with a memory backend and a redis backend
+// (redisURL as in CacheConfig.Redis).
+func VerifC08NewCacheRedis(maxTTLSeconds int, memSize int, redisURL string) (*VerifC08Cache, error) {
+	r := &router{logger: mlog.Nop(), metricsReg: newMetricsReg()}
+	c, err := r.initCache(&CacheConfig{MemSize: memSize, MaximumTTL: maxTTLSeconds, Redis: redisURL})
+	if err != nil {
+		return nil, err
+	}
+	return &VerifC08Cache{c: c}, nil
+}
+
+// RedisConnected: the redis backend's ping loop has reached the server.
+func (v *VerifC08Cache) RedisConnected() bool { return v.c.redis != nil && v.c.redis.VerifConnected() }
+
+// DropMemory removes q's binding from the memory backend only (what size eviction or a restart of the
+// process does); the redis copy stays.
+func (v *VerifC08Cache) DropMemory(q *dnsmsg.Question) {
+	k := cacheKey(q, "")
+	defer pool.ReleaseBuf(k)
+	v.c.memory.VerifDelete(k)
+}
+
+// RedisImage returns the redis key and value another proxy instance would have written for resp under q with
+// these instants: the real cacheKey, the real packCacheMsg, the real RedisCache value layout.
+func (v *VerifC08Cache) RedisImage(q *dnsmsg.Question, storedTime, expireTime time.Time, resp *dnsmsg.Msg) (key, value []byte, err error) {
+	b, err := packCacheMsg(resp)
+	if err != nil {
+		return nil, nil, err
+	}
+	defer pool.ReleaseBuf(b)
+	k := cacheKey(q, "")
+	defer pool.ReleaseBuf(k)
+	return append([]byte(nil), k...), cache.VerifRedisValue(storedTime, expireTime, b), nil
+}
